@@ -327,6 +327,14 @@ def install_solo(ref, table):
 def _solo_work(task):
     ref, t = task
     scn = get_scenario(ref)
+    # a scenario may name another job as the REFERENCE of a task (an instance
+    # whose output must, by construction, equal that of a simpler one); the
+    # observation then comes from the reference, the points from the task
+    rj = scn.reference_job(t) if hasattr(scn, "reference_job") else None
+    if rj is not None:
+        _, res0 = scheduler().execute([rj])
+        tr, _ = scheduler().execute([scn.job(t)])
+        return (res0[0], len(tr) - 1, [d[1] for d in tr])
     tr, res = scheduler().execute([scn.job(t)])
     return (res[0], len(tr) - 1, [d[1] for d in tr])
 
